@@ -127,6 +127,20 @@ def apply(st, op, checks=('C16', 'C17')):
             cur = st.saved
             if cur is None or obj <= cur['obj'] or (math.isnan(cur['obj']) and not math.isnan(obj)):
                 st.saved = dict(x=x.copy(), r=r.copy(), obj=obj, ns=op['nsamples'], ev=op['eval_num'])
+        elif kind == 'save_incumbent':
+            # exactly what Controller.soft_restart does: the residuals handed over are a VIEW of the model's own table
+            kk = int(M.kopt)
+            x = M.xopt(abs_coordinates=True)
+            r = M.ropt()
+            ns = int(M.nsamples[kk])
+            ev = int(M.eval_num[kk])
+            rcopy = np.array(r, dtype=float, copy=True)
+            xcopy = np.array(x, dtype=float, copy=True)
+            M.save_point(x, r, ns, ev, x_in_abs_coords=True)
+            obj = st.F(rcopy, xcopy)
+            cur = st.saved
+            if cur is None or obj <= cur['obj'] or (math.isnan(cur['obj']) and not math.isnan(obj)):
+                st.saved = dict(x=xcopy, r=rcopy, obj=obj, ns=ns, ev=ev)
         elif kind == 'interpolate':
             ok = M.interpolate_mini_models_svd(make_full_rank=bool(op.get('make_full_rank')) and M.npt() < M.n() + 1)[0]
             if 'C16' in checks and ok and not op.get('make_full_rank'):
@@ -259,6 +273,8 @@ def check_bookkeeping(st, site, kopt_before):
                 if int(ev) != int(st.slots[kopt]['eval_num']) or int(ns) != int(M.nsamples[kopt]):
                     out.append(V('C17', 'final_tuple_inconsistent', site, 'incumbent returned with eval_num=%r nsamples=%r (slot has %r, %r)' % (ev, ns, st.slots[kopt]['eval_num'], int(M.nsamples[kopt]))))
             else:
+                if not np.array_equal(np.asarray(r, dtype=float), st.saved['r'], equal_nan=True):
+                    out.append(V('C17', 'saved_residuals_changed', site, 'the saved point is returned with residuals %r, it was saved with %r' % (np.asarray(r).tolist()[:3], st.saved['r'].tolist()[:3])))
                 if int(ev) != int(st.saved['ev']) or int(ns) != int(st.saved['ns']) or not np.array_equal(np.asarray(x), st.saved['x']):
                     out.append(V('C17', 'final_tuple_inconsistent', site, 'saved point returned with eval_num=%r nsamples=%r (saved %r, %r)' % (ev, ns, st.saved['ev'], st.saved['ns'])))
     return out
@@ -418,7 +434,7 @@ def gen_example(rnd, data_faults, checks, max_steps=50):
                 xl=[-1e20] * n, xu=[1e20] * n, precondition=rnd.random() < 0.7, lam=(0.5 if rnd.random() < 0.4 else None), r0_nsamples=1)
     rules = ['change_point', 'swap_points', 'shift_base', 'add_new_point']
     if 'C17' in checks:
-        rules += ['add_new_sample', 'save_point']
+        rules += ['add_new_sample', 'save_point', 'save_incumbent']
     if 'C16' in checks:
         rules += ['interpolate', 'factorise']
     weights = dict((r, rnd.choice([0.2, 1.0, 1.0, 3.0])) for r in rules)
@@ -473,6 +489,8 @@ def gen_example(rnd, data_faults, checks, max_steps=50):
         elif rule == 'save_point':
             next_eval += 1
             op = dict(op='save_point', x=[float(v) for v in (M.xbase + _arr(point()))], r=resid(), nsamples=rnd.randint(1, 3), eval_num=next_eval)
+        elif rule == 'save_incumbent':
+            op = dict(op='save_incumbent')
         elif rule == 'interpolate':
             if M.npt() < 2:
                 continue
